@@ -536,6 +536,11 @@ class BuiltinsMixin:
         res = self.fresh_sv(name, ety)
         j = z3.Int(st.fresh_name("j"))
         w = st.fresh("w", INT)
+        if "key" in kwargs:
+            # max(xs, key=f): SOME element of xs (which one is maximal under f is not modelled)
+            self.assumptions.add("A-MINMAX-KEY: min/max with key= returns some element of the sequence (extremality under the key not modelled)")
+            st.assume(z3.And(0 <= w, w < n, H.list_get(st, r, w) == res.term))
+            return res
         cmp = (lambda x, y: x <= y) if name == "max" else (lambda x, y: x >= y)
         st.assume(z3.ForAll([j], z3.Implies(z3.And(0 <= j, j < n), cmp(num(H.list_get(st, r, j)), num(res.term)))))
         st.assume(z3.And(0 <= w, w < n, H.list_get(st, r, w) == res.term))
@@ -698,6 +703,9 @@ class BuiltinsMixin:
                     raise Unsupported("str.strip(chars)")
                 f = z3.Function("str_" + name, z3.StringSort(), z3.StringSort())
                 self.assumptions.add(f"str.{name} kept uninterpreted")
+                if name in ("strip", "lstrip", "rstrip") and not self.pure:
+                    # ground facts about this application (true of Python's strip): idempotent, a substring, not longer
+                    st.assume(z3.And(f(f(s)) == f(s), z3.Contains(s, f(s)), z3.Length(f(s)) <= z3.Length(s)))
                 return SV(mk_str(f(s)), Ty("str"))
             if name == "join":
                 f = z3.Function("str_join", z3.StringSort(), Val, z3.StringSort())
